@@ -34,6 +34,13 @@ class T1(T0):
   """t1"""
 
 
+class Opaque:
+  """A mutable user object that daglish treats as a leaf."""
+
+  def __init__(self, v):
+    self.v = v
+
+
 OPS = ['copy.copy', 'copy.deepcopy', 'pickle2', 'pickle5', 'copy_with', 'deepcopy_with', 'cast_partial', 'cast_config']
 DEEP = {1, 2, 3, 5}
 
@@ -41,7 +48,9 @@ DEEP = {1, 2, 3, 5}
 def _make(w, t1x, t1y, t2x, t2y, lv, top_partial):
   root3, nodes = fam.make(3, [(-1, -1), (t1x, t1y), (t2x, t2y)], [(0, 0), (w, w), (w, w)],
                           leaves=[(lv, lv + 1), (lv + 2, lv + 3), (lv + 4, lv + 5)], share=True)
-  shared_list = [nodes[0], lv + 6]
+  # a Buildable all of whose arguments are daglish leaves, some of them mutable (set, bytearray, user object)
+  leafy = fdl.Config(fam.g4, x={1, 2}, y=bytearray(b'ab'), z=Opaque(5))
+  shared_list = [nodes[0], lv + 6, leafy]
   ctor = fdl.Partial if top_partial else fdl.Config
   top = ctor(fam.fp, root3, lv + 7, shared_list, lv + 8, nodes[1], k=shared_list)
   fdl.add_tag(top, 'k', T0)
@@ -93,6 +102,12 @@ def _edit(e, c, deep, v):
       fdl.add_tag(c[0], 'y', T0)
   elif e == 7:
     c[fdl.VARARGS:] = [v, v]
+  elif e == 9:
+    if deep:
+      leafy = c[2][2]
+      leafy.x.add(7)                  # mutable leaves of a leaf-only Buildable
+      leafy.y.extend(b'!')
+      leafy.z.v = v
   elif e == 8:
     if deep:
       inner = c[0]
@@ -110,7 +125,7 @@ def _internal_ids(b):
 
 def c07_copy(op: int, e0: int, e1: int, w: int, tp: bool, t1x: int, t1y: int, t2x: int, t2y: int, lv: int) -> bool:
   """
-  require: 0 <= op <= 7 and 0 <= e0 <= 8 and 0 <= e1 <= 8 and 0 <= w <= 5
+  require: 0 <= op <= 7 and 0 <= e0 <= 9 and 0 <= e1 <= 9 and 0 <= w <= 5
   require: -1 <= t1x <= 0 and -1 <= t1y <= 0 and -1 <= t2x <= 1 and -1 <= t2y <= 1
   """
   def conc(t, hi):
@@ -196,11 +211,11 @@ def obligations(tier, seed):
   cubes = []
   ws = [1, 3] if tier == 'quick' else [0, 1, 2, 3, 4, 5]
   for op in range(8):
-    for e0 in range(9):
-      for e1 in range(9):
-        if tier == 'quick' and (e0 * 9 + e1 + op) % 4:
+    for e0 in range(10):
+      for e1 in range(10):
+        if tier == 'quick' and (e0 * 10 + e1 + op) % 6:
           continue
-        if op not in DEEP and (e0 in (6, 8) and e1 in (6, 8)):
+        if op not in DEEP and (e0 in (6, 8, 9) and e1 in (6, 8, 9)):
           continue
         for w in ws:
           if tier == 'quick' and (w + e0 + op) % 2:
@@ -211,6 +226,6 @@ def obligations(tier, seed):
   t = 300 if tier == 'quick' else 900
   return [
       Obligation('c07_copy', c07_copy, cubes, timeout=t, path_timeout=40, smoke=smoke,
-                 extra_smokes=[dict(smoke, op=o, e0=(o * 2) % 9, e1=(o + 5) % 9, tp=bool(o % 2)) for o in range(8)]),
+                 extra_smokes=[dict(smoke, op=o, e0=(o * 2) % 10, e1=(o + 5) % 10, tp=bool(o % 2)) for o in range(8)]),
       Obligation('c07_loud', c07_loud, [Cube(f'o{o}', [], dict(op=o)) for o in (2, 3)], timeout=60, smoke=dict(op=2)),
   ]
